@@ -40,45 +40,47 @@ def checkFieldsX (lenient exempt sColon sSigil : Bool) (x : Exceeds) : Outcome :
   else if x.typeB then soft lenient else if x.skB then soft lenient
   else if x.senderB then .tooLargePersistable else .ok
 
-def roomX (rc : RoomCheck) (rColon rSigil rValid : Bool) (x : Exceeds) : Outcome :=
+def roomX (rc : RoomCheck) (create rColon rSigil rValid : Bool) (x : Exceeds) : Outcome :=
   match rc with
   | .checkID => checkRoomIDFieldX rColon rSigil x.roomCP x.roomB rValid
-  | .prefixOnly => if !rSigil then Outcome.other else if rValid then Outcome.ok else Outcome.other
+  | .prefixOnly =>
+    if create then (if x.roomCP then Outcome.tooLarge else if x.roomB then Outcome.tooLarge else Outcome.ok)
+    else if !rSigil then Outcome.other else if rValid then Outcome.ok else Outcome.other
 
 /-- `verdict` as a function of the exceeded limits only -/
-def verdictX (lenient exempt : Bool) (rc : RoomCheck) (sColon sSigil rColon rSigil rValid : Bool) (x : Exceeds) : Outcome :=
-  (roomX rc rColon rSigil rValid x).andThen (checkFieldsX lenient exempt sColon sSigil x)
+def verdictX (lenient exempt : Bool) (rc : RoomCheck) (create sColon sSigil rColon rSigil rValid : Bool) (x : Exceeds) : Outcome :=
+  (roomX rc create rColon rSigil rValid x).andThen (checkFieldsX lenient exempt sColon sSigil x)
 
 /-- `verdictUntrusted`: `x` describes the event as received, `checkedJson` says whether the JSON that
     CheckFields sees (the redacted one if the hash does not match) is over the limit -/
-def verdictUntrustedX (lenient exempt : Bool) (rc : RoomCheck) (sColon sSigil rColon rSigil rValid : Bool) (x : Exceeds)
+def verdictUntrustedX (lenient exempt : Bool) (rc : RoomCheck) (create sColon sSigil rColon rSigil rValid : Bool) (x : Exceeds)
     (checkedJson : Bool) : Outcome :=
-  (roomX rc rColon rSigil rValid x).andThen
+  (roomX rc create rColon rSigil rValid x).andThen
     (if x.json then .tooLarge else checkFieldsX lenient exempt sColon sSigil { x with json := checkedJson })
 
 theorem checkFields_eq_X (p : Params) (s : Sizes) :
     checkFields p s = checkFieldsX p.lenient p.senderExempt s.sender.hasColon s.sender.sigilOk (exceeds p.maxID p.maxEvent s) := by
-  obtain ⟨jl, tcp, tb, hsk, scp, sb, ⟨sc, ss, secp, seb⟩, ⟨rc, rs, rcp, rb⟩, rv⟩ := s
+  obtain ⟨jl, tcp, tb, hsk, scp, sb, ⟨sc, ss, secp, seb⟩, ⟨rc, rs, rcp, rb⟩, rv, cr⟩ := s
   obtain ⟨mi, me, le, ex, rck⟩ := p
   simp only [checkFields, checkFieldsX, exceeds, decide_eq_true_eq, Bool.and_eq_true]
 
 theorem room_eq_X (p : Params) (s : Sizes) :
-    roomCheckOutcome p s = roomX p.roomCheck s.room.hasColon s.room.sigilOk s.roomValid (exceeds p.maxID p.maxEvent s) := by
-  obtain ⟨jl, tcp, tb, hsk, scp, sb, ⟨sc, ss, secp, seb⟩, ⟨rc, rs, rcp, rb⟩, rv⟩ := s
+    roomCheckOutcome p s = roomX p.roomCheck s.create s.room.hasColon s.room.sigilOk s.roomValid (exceeds p.maxID p.maxEvent s) := by
+  obtain ⟨jl, tcp, tb, hsk, scp, sb, ⟨sc, ss, secp, seb⟩, ⟨rc, rs, rcp, rb⟩, rv, cr⟩ := s
   obtain ⟨mi, me, le, ex, rck⟩ := p
   cases rck
   · simp only [roomCheckOutcome, roomX, checkRoomIDField, checkRoomIDFieldX, checkIDSize, checkIDX, exceeds, decide_eq_true_eq]
     cases rc <;> cases rs <;> by_cases h1 : rcp > mi <;> by_cases h2 : rb > mi <;> simp [h1, h2]
-  · simp only [roomCheckOutcome, roomX]
+  · simp only [roomCheckOutcome, roomX, exceeds, decide_eq_true_eq]
 
 theorem verdict_eq_verdictX (p : Params) (s : Sizes) :
-    verdict p s = verdictX p.lenient p.senderExempt p.roomCheck s.sender.hasColon s.sender.sigilOk
+    verdict p s = verdictX p.lenient p.senderExempt p.roomCheck s.create s.sender.hasColon s.sender.sigilOk
       s.room.hasColon s.room.sigilOk s.roomValid (exceeds p.maxID p.maxEvent s) := by
   unfold verdict verdictX
   rw [room_eq_X, checkFields_eq_X]
 
 theorem verdictUntrusted_eq_X (p : Params) (s : Sizes) (n : Nat) :
-    verdictUntrusted p s n = verdictUntrustedX p.lenient p.senderExempt p.roomCheck s.sender.hasColon s.sender.sigilOk
+    verdictUntrusted p s n = verdictUntrustedX p.lenient p.senderExempt p.roomCheck s.create s.sender.hasColon s.sender.sigilOk
       s.room.hasColon s.room.sigilOk s.roomValid (exceeds p.maxID p.maxEvent s) (decide (n > p.maxEvent)) := by
   unfold verdictUntrusted verdictUntrustedX
   rw [room_eq_X, checkFields_eq_X]
